@@ -177,7 +177,8 @@ def discharge_all(items, timeout_ms, second_opinion=False):
             goals = [x.goal for x in run if not Z.is_true(x.goal)]
             if goals:
                 body = list(run[0].assertions) + [Z.Not(Z.And(*goals))]
-                r, m, dt = Z.check(Z.relevant_axioms(body) + body, timeout_ms, want_model=False)
+                tmo = timeout_ms if not any(_SLOW.get(x.clause, 0) >= 2 for x in run) else min(timeout_ms, 3000)
+                r, m, dt = Z.check(Z.relevant_axioms(body) + body, tmo, want_model=False)
             else:
                 r, dt = 'unsat', 0.0
             if r == 'unsat':
@@ -253,7 +254,8 @@ class PropertyCheck(object):
             tmo = 3000
         try:
             info, records, undec, errors, paths = par.verify_parallel(
-                E, t, tmo, self.pid if self.props_mod is not None else None, here=HERE)
+                E, t, tmo, self.pid if self.props_mod is not None else None, here=HERE,
+                stop_at_first_failure=bool(getattr(self, 'canary_mode', False)))
         except Exception:
             self.errors.append('parallel engine crash in %s: %s' % (t, traceback.format_exc()[-1500:]))
             return
@@ -507,6 +509,39 @@ def finish(pc, props_mod):
     # extra violations found by evaluation-discharged or bounded checks
     for v in pc.violations:
         violations.append(v)
+
+    # the deductive part is undecided (code left the verified subset, a proof-support clause failed, the
+    # solver gave up) and nothing is refuted yet: bounded native search with the property's own oracle.
+    # A failing input found this way is a reproduced violation; finding none leaves the verdict undecided.
+    if undecided and not violations and hasattr(props_mod, 'fallback') and not getattr(pc, 'canary_mode', False):
+        try:
+            cases = props_mod.fallback(pc) or []
+        except Exception as e:
+            cases = []
+            pc.notes.append('fallback native search crashed: %r' % (e,))
+        for case in cases:
+            try:
+                out = native(case['script'], case['case'], repo_root=(pc.E.repo.root if pc.E else None), timeout=900)
+            except Exception as e:
+                pc.notes.append('fallback native case crashed: %r' % (e,))
+                continue
+            if out.get('found') and case.get('replay_script'):
+                # a search script: replay the case it found with the single-case oracle
+                case = {'script': case['replay_script'], 'case': out['found']['case']}
+                try:
+                    out = native(case['script'], case['case'], repo_root=(pc.E.repo.root if pc.E else None), timeout=900)
+                except Exception as e:
+                    pc.notes.append('fallback replay crashed: %r' % (e,))
+                    continue
+            if out.get('fails'):
+                fn = 'replays/%s-fallback-%s.json' % (pid, hashlib.sha1(json.dumps(case, sort_keys=True).encode()).hexdigest()[:10])
+                with open(os.path.join(HERE, fn), 'w') as f:
+                    json.dump({'property': pid, 'obligation': 'native oracle of %s (deductive verdict undecided: %s)'
+                               % (pid, '; '.join(str(u[0])[:160] for u in undecided[:3])),
+                               'concretised_input': case, 'native_observation': out,
+                               'input_found_by': 'bounded native search after an undecided deductive verdict'}, f, indent=1, default=str)
+                violations.append(('%s.native' % pid, fn, True))
+                break
 
     for clause, fn, reproduced in violations:
         tail = '' if reproduced else ' no-failing-input-found'
